@@ -21,27 +21,41 @@ import stixgen
 from props import schema_common as sc
 
 MANIFEST = {
-    "text": "Coq theorems over the schema-interpreter model (all inputs, all fuels): re-cleaning an encoded value is the "
-            "identity per property kind (clean_encode_idem), hence the constructor returns the same object from the object's own "
-            "encoding and re-encoding gives the same ordered members (roundtrip_equal_partial / reserialize_identical_partial: "
-            "119 of the 123 generated classes incl. Relationship, Sighting, both MarkingDefinition classes with the wrapped "
-            "definition and the 2.0 per-instance precision of created, and 2.1 Indicator with its pattern_version default, "
-            "plain JSON input; the class list is recomputed by the "
-            "kernel each run; roundtrip_equal_parse_partial: the same at stix2.parse level for 89 entry-point classes incl. "
-            "MarkingDefinition and 2.1 Indicator; "
-            "roundtrip_equal_bundle_partial: both Bundle classes, members parsed from their own dictionaries and stored as "
-            "objects of parse-covered classes -- 121 of 123; roundtrip_equal_observed_partial: 2.1/ObservedData in its "
-            "object_refs form (no objects member); roundtrip_equal_observed20_partial: 2.0/ObservedData with its objects "
-            "dictionary, members parsed by parse_observable -- every one of the 123 classes has a theorem; outside: "
-            "2.1/ObservedData given the deprecated objects dictionary); "
-            "the two encoders differ exactly on defaulted optionals; sort_keys/indent/compact/pretty are permutations of "
-            "members (same JSON value); pretty keeps the top-level class order and for constructed objects that order is the "
-            "class's specification order followed by the sorted custom names (pretty_toplevel_spec_order_partial). Model tied to /repo by regenerated class "
-            "tables and a correspondence run of serialize under every option; the property itself is evaluated on the real "
-            "library for generated objects of every class under sampled option sets.",
+    "text": "Coq theorems over the schema-interpreter model, all fuels. SCOPE OF EVERY ROUND-TRIP THEOREM: (i) the model variant "
+            "must have vr_year_pad = true (years written with four digits), and the class lists below are evaluated by the "
+            "kernel at variant_repaired, i.e. they also rely on vr_positional_none (positional __init__ drops only None), "
+            "vr_md20_default_ms (2.0 MarkingDefinition clock default at millisecond precision) and vr_bundle20_recheck (2.0 "
+            "Bundle re-checks parsed members) -- on a tree without those repairs the corresponding classes fall out; (ii) the "
+            "input must be 'plain' (plain_dict / plain_json): NO member named `extensions` or `custom_properties` at any depth "
+            "and no null / [] member value -- so no object carrying any extension (registered or custom) is covered by a "
+            "theorem, although the property says 'with or without custom content'; custom PROPERTIES (x_foo ...) are covered, "
+            "extensions only by the oracle; (iii) a 2.1 observable must be given with its id. Theorems: clean_encode_idem "
+            "(re-cleaning an encoded value is the identity, per property kind); roundtrip_equal_partial / "
+            "reserialize_identical_partial (constructor level: the constructor returns the same object from the object's own "
+            "encoding, hence the same ordered members under every option set) for 119 of the 123 generated classes incl. "
+            "Relationship, Sighting, both MarkingDefinition classes and 2.1 Indicator; roundtrip_equal_parse_partial: the same at "
+            "stix2.parse level (no version named) for 89 entry-point classes incl. MarkingDefinition and 2.1 Indicator; "
+            "roundtrip_equal_bundle_partial (constructor level): both Bundle classes, every member a dictionary stored as an "
+            "object of one of those 89 classes (a member of an unregistered type, or an ObservedData / Bundle member, is "
+            "outside); roundtrip_equal_observed_partial: 2.1/ObservedData without an `objects` member; "
+            "roundtrip_equal_observed20_partial: 2.0/ObservedData with its objects dictionary. 'Every one of the 123 classes "
+            "has a theorem' is a CONSTRUCTOR-LEVEL statement: at stix2.parse level -- the level the property speaks about -- "
+            "Bundle and both ObservedData classes are outside (89 of 123), as is 2.1/ObservedData given the deprecated objects "
+            "dictionary at either level. Serialization layer: options_same_value (sort_keys / pretty only permute members, at "
+            "every depth), pretty_toplevel_order and pretty_toplevel_spec_order_partial (for a constructed object of a covered "
+            "class the pretty top-level order is the class's specification order followed by the custom names, which form a "
+            "usort-fixpoint, i.e. are sorted and duplicate-free); indent_compact_irrelevant and encoders_differ_by_defaulted are "
+            "DEFINITIONAL facts of the model (serialize_value ignores indent/separators by construction; the second re-reads "
+            "the defaulted test of `encode`): they say nothing about the JSON text, which is abstract here. Positive instances "
+            "(Examples in Props/C01.v): a 2.1 identity, a 2.1 bundle with it, a 2.0 observed-data with file + directory. "
+            "Model tied to /repo by regenerated class tables and a correspondence run of serialize under every option; the "
+            "property itself is evaluated on the real library for generated objects of every class (with extensions, custom "
+            "content, derived objects) under sampled option sets.",
     "design_ref": "DESIGN.md 6/C02,C03,C04,C01 (T C01)",
-    "note": "Trusted: Coq kernel + vm_compute, tr_tables translator, frozen spec tables, simplejson text layer (abstract), "
-            "the generator. Python-only values (datetime) inside custom properties are outside the statement (DESIGN 6).",
+    "note": "Trusted: Coq kernel + vm_compute, tr_tables translator, frozen spec tables, simplejson text layer (abstract: "
+            "byte identity of texts is checked by the oracle only), the generator. Python-only values (datetime) inside custom "
+            "properties are outside the statement (DESIGN 6). Theorem hypotheses not discharged for the pinned tree: "
+            "vr_year_pad, vr_positional_none, vr_md20_default_ms, vr_bundle20_recheck (all fixed in /repo HEAD; detected per run).",
     "technique": "Coq proof over an executable model + correspondence run + property oracle on the implementation",
 }
 
